@@ -53,7 +53,7 @@ EffectOK(r) ==
                                ELSE IF r.onChange THEN Len(b.chg) = Len(a.chg) + r.k /\ SubSeq(b.chg, 1, Len(a.chg)) = a.chg /\ b.ext = a.ext
                                ELSE Len(b.ext) = Len(a.ext) + r.k /\ SubSeq(b.ext, 1, Len(a.ext)) = a.ext /\ b.chg = a.chg
       [] r.op \in {"view", "getwallet"} -> P(r.post) = P(r.pre)                           \* what the caller does to its copy stays with the caller
-      [] r.op = "getseed" -> a.encrypted /\ r.rightPw /\ r.seedMatches /\ P(r.post) = P(r.pre)
+      [] r.op = "getseed" -> r.seedAPI /\ a.encrypted /\ r.rightPw /\ r.seedMatches /\ P(r.post) = P(r.pre)
       [] OTHER -> TRUE
 
 Fact(r, name) == \A i \in DOMAIN r.facts : r.facts[i][name]
